@@ -352,8 +352,11 @@ def effect (idx : Index) (me : Sess) (sid : StateId) : Cmd → Option Effect
     match me.sel with
     | none => none
     | some sel =>
-      -- `getAllMessagesIDsMarkedDelete`, then `actionRemoveMessagesFromMailbox` keeps those the mailbox still holds
-      let ids := (me.snap.filter (·.toExpunge)).map (·.id)
+      -- `getAllMessagesIDsMarkedDelete`; a message with an applied, not yet flushed `expunge` responder
+      -- (`State.pendingExpunges`, fix 9c5a27f) is left alone: the snapshot entry is the OLD instance of a message that was
+      -- copied / moved onto its own mailbox, the index would remove the new one; then `actionRemoveMessagesFromMailbox`
+      -- keeps those the mailbox still holds
+      let ids := ((me.snap.filter (·.toExpunge)).map (·.id)).filter fun id => !me.res.contains (.expunge id)
       let have_ := ids.filter (idx.box sel).has
       if have_.isEmpty then some { idx, flush1 := some true }
       else
